@@ -107,9 +107,9 @@ def run(ctx):
     # 3. mixins keep the stored number
     L = ['#include "constant_readout.hh"', hdrs, "using namespace au;", "int main() {", "  long long bad = 0, n = 0;"]
     for c in consts:
-        for v in ("3", "-7", "int8_t{100}", "uint64_t{18446744073709551615ULL}", "2.5", "-0.0", "1e300", "3.5f", "123456789012345678LL"):
+        for v in ("3", "-7", "int8_t{100}", "uint64_t{18446744073709551615ULL}", "2.5", "-0.0", "1e300", "3.5f", "123456789012345678LL", "3.0f", "0.1f", "7.0L"):
             L.append("  bad += auv::mixin_number(%s, %s); ++n;" % (c["name"], v))
-        for q in ("meters(3)", "seconds(2.5)", "(meters / second)(int16_t{-7})", "kilo(hertz)(1e-30)", "unos(7u)"):
+        for q in ("meters(3)", "seconds(2.5)", "(meters / second)(int16_t{-7})", "kilo(hertz)(1e-30)", "unos(7u)", "meters(3.0f)", "seconds(-0.3f)", "hertz(7.0L)", "(meters / second)(1e-3f)"):
             L.append("  bad += auv::mixin_quantity(%s, %s); ++n;" % (c["name"], q))
         L.append("  { auto c2 = %s * %s; auto c3 = %s / mag<7>(); auto m = %s * meters; bad += !are_units_quantity_equivalent(AssociatedUnitT<decltype(c2)>{}, pow<2>(AssociatedUnitT<std::remove_cv_t<decltype(%s)>>{}));"
                  " bad += !bits_eq(m(5).in(m.unit), 5); bad += !bits_eq((3.0 * c3).in(AssociatedUnitT<decltype(c3)>{}), 3.0); n += 3; }" % (c["name"], c["name"], c["name"], c["name"], c["name"]))
